@@ -284,6 +284,37 @@ def _legit_operand_error(msg):
             except Exception:
                 return False
         return False
+    m = _re.match(r"'(\w+)' object is not (iterable|subscriptable|callable|an iterator)$", msg) or \
+        _re.match(r"object of type '(\w+)' has no (len)\(\)$", msg) or \
+        _re.match(r"'(\w+)' object does not support (item assignment|item deletion)$", msg)
+    if m:
+        a, what = m.groups()
+        if a in _REPR:
+            x = _REPR[a]
+            try:
+                if what == "iterable":
+                    iter(x)
+                elif what == "subscriptable":
+                    x[0]
+                elif what == "callable":
+                    return not callable(x)
+                elif what == "len":
+                    len(x)
+                elif what == "item assignment":
+                    x[0] = 0
+                else:
+                    return False
+            except TypeError:
+                return True
+            except Exception:
+                return False
+        return False
+    m = _re.match(r"'(\w+)' object has no attribute '(\w+)'", msg)
+    if m:
+        a, attr = m.groups()
+        if a in _REPR:
+            return not hasattr(_REPR[a], attr)
+        return False
     m = _re.match(r"bad operand type for unary (\S+): '(\w+)'", msg)
     if m:
         opn, a = m.groups()
